@@ -368,6 +368,8 @@ class IpPairing(ZeroconfPairing):
         """Provision a device with Thread network credentials."""
 
     async def subscribe(self, characteristics):
+        # characteristics may be a single-pass iterable so only go over it once
+        characteristics = list(characteristics)
         await super().subscribe(set(characteristics))
 
         if not self.supports_subscribe:
@@ -389,6 +391,8 @@ class IpPairing(ZeroconfPairing):
             return {}
 
     async def unsubscribe(self, characteristics):
+        # characteristics may be a single-pass iterable so only go over it once
+        characteristics = list(characteristics)
         if not self.connection.is_connected:
             # If not connected no need to unsubscribe
             await super().unsubscribe(characteristics)
